@@ -7,7 +7,7 @@ cd /verif
 tier=${1:-quick}; mode=$2
 claimed=$(python3 -c "import json;print(' '.join(c['property_id'] for c in json.load(open('MANIFEST.json'))['checks']))")
 out=seeded/matrix.txt.new; : > $out
-for d in seeded/C*-[a-f]; do
+for d in seeded/C*-[a-h]; do
   sid=$(basename $d)
   p=$(echo $sid | cut -d- -f1)
   case " $claimed " in *" $p "*) ;; *) echo "$sid not-claimed" >> $out; continue;; esac
